@@ -129,8 +129,16 @@ func (p *parser) parseStmt() Stmt {
 		args := p.exprListUntil(")")
 		return &Call{Schema: sch, Name: name, Args: args}
 	case p.isKw("begin") || p.isKw("start"):
-		p.skipToEnd()
-		return &TxStmt{Kind: "begin"}
+		// BEGIN [WORK | TRANSACTION] [transaction_mode [, ...]] / START TRANSACTION [transaction_mode [, ...]] (SQL commands BEGIN, START
+		// TRANSACTION).  The modes are NOT skipped: the isolation level decides which snapshot every later statement reads from.
+		if p.next().s == "start" {
+			p.expectKw("transaction")
+		} else if !p.acceptKw("work") {
+			p.acceptKw("transaction")
+		}
+		t := &TxStmt{Kind: "begin"}
+		p.parseTxModes(t, false)
+		return t
 	case p.isKw("commit") || p.isKw("end"):
 		p.skipToEnd()
 		return &TxStmt{Kind: "commit"}
@@ -167,6 +175,8 @@ func (p *parser) parseStmt() Stmt {
 		}
 		p.skipToEnd()
 		return &Noop{"alter"}
+	case p.isKw("set") && p.isTxSet():
+		return p.parseTxSet()
 	case p.isKw("set") || p.isKw("do") || p.isKw("lock") || p.isKw("analyze") || p.isKw("vacuum") || p.isKw("comment") || p.isKw("grant") || p.isKw("reset") || p.isKw("show") || p.isKw("discard") || p.isKw("deallocate"):
 		w := p.peek().s
 		p.skipToEnd()
@@ -174,6 +184,144 @@ func (p *parser) parseStmt() Stmt {
 	}
 	p.fail("unsupported statement")
 	return nil
+}
+
+// parseTxModes: transaction_mode [, ...] where transaction_mode is ISOLATION LEVEL { SERIALIZABLE | REPEATABLE READ | READ COMMITTED |
+// READ UNCOMMITTED } | READ WRITE | READ ONLY | [NOT] DEFERRABLE (SQL command SET TRANSACTION).  Anything else is a syntax error, never
+// skipped.  DEFERRABLE only matters for SERIALIZABLE READ ONLY transactions and is accepted without effect.
+func (p *parser) parseTxModes(t *TxStmt, required bool) {
+	n := 0
+	for {
+		switch {
+		case p.acceptKw("isolation"):
+			p.expectKw("level")
+			switch {
+			case p.acceptKw("serializable"):
+				t.Iso = "serializable"
+			case p.acceptKw("repeatable"):
+				p.expectKw("read")
+				t.Iso = "repeatable read"
+			case p.acceptKw("read"):
+				switch {
+				case p.acceptKw("committed"):
+					t.Iso = "read committed"
+				case p.acceptKw("uncommitted"):
+					t.Iso = "read uncommitted"
+				default:
+					p.fail("expected COMMITTED or UNCOMMITTED")
+				}
+			default:
+				p.fail("expected an isolation level")
+			}
+		case p.acceptKw("read"):
+			switch {
+			case p.acceptKw("only"):
+				t.Access = "read only"
+			case p.acceptKw("write"):
+				t.Access = "read write"
+			default:
+				p.fail("expected ONLY or WRITE")
+			}
+		case p.acceptKw("not"):
+			p.expectKw("deferrable")
+		case p.acceptKw("deferrable"):
+		default:
+			if n == 0 && !required && (p.isOp(";") || p.peek().kind == tEOF) {
+				return
+			}
+			p.fail("expected a transaction mode")
+		}
+		n++
+		p.acceptOp(",")
+		if p.isOp(";") || p.peek().kind == tEOF {
+			return
+		}
+	}
+}
+
+// isTxSet: is this SET statement one of the forms that change transaction characteristics?  SET TRANSACTION ..., SET SESSION
+// CHARACTERISTICS AS TRANSACTION ..., SET [SESSION | LOCAL] {transaction_isolation | default_transaction_isolation |
+// transaction_read_only | default_transaction_read_only} {TO | =} value.  Every other SET stays a no-op.
+func (p *parser) isTxSet() bool {
+	k := 1
+	if p.isKwAt(k, "transaction") {
+		return true
+	}
+	if p.isKwAt(k, "session") && p.isKwAt(k+1, "characteristics") {
+		return true
+	}
+	if p.isKwAt(k, "session") || p.isKwAt(k, "local") {
+		k++
+	}
+	for _, g := range []string{"transaction_isolation", "default_transaction_isolation", "transaction_read_only", "default_transaction_read_only"} {
+		if p.isKwAt(k, g) {
+			return true
+		}
+	}
+	return false
+}
+
+func (p *parser) parseTxSet() Stmt {
+	p.expectKw("set")
+	if p.acceptKw("transaction") {
+		if p.isKw("snapshot") {
+			p.fail("SET TRANSACTION SNAPSHOT is not supported by pgsem")
+		}
+		t := &TxStmt{Kind: "set_tx"}
+		p.parseTxModes(t, true)
+		return t
+	}
+	if p.isKw("session") && p.isKwAt(1, "characteristics") {
+		p.next()
+		p.next()
+		p.expectKw("as")
+		p.expectKw("transaction")
+		t := &TxStmt{Kind: "set_session_tx"}
+		p.parseTxModes(t, true)
+		return t
+	}
+	local := false
+	if !p.acceptKw("session") {
+		local = p.acceptKw("local")
+	}
+	guc := p.ident()
+	if !p.acceptKw("to") {
+		p.expectOp("=")
+	}
+	v := p.next()
+	if v.kind != tString && v.kind != tIdent && v.kind != tQIdent {
+		p.p--
+		p.fail("expected a value")
+	}
+	val := strings.ToLower(strings.Join(strings.Fields(v.s), " "))
+	if v.kind == tIdent && (val == "read" || val == "repeatable") { // SET transaction_isolation TO repeatable read is not valid SQL, but be exact about what follows
+		p.fail("expected a quoted isolation level")
+	}
+	t := &TxStmt{Kind: "set_session_tx"}
+	if local || guc == "transaction_isolation" || guc == "transaction_read_only" {
+		t.Kind = "set_tx" // transaction_isolation / SET LOCAL: the current transaction only
+	}
+	switch guc {
+	case "transaction_isolation", "default_transaction_isolation":
+		switch val {
+		case "serializable", "repeatable read", "read committed", "read uncommitted":
+			t.Iso = val
+		case "default":
+			t.Iso = "read committed"
+		default:
+			p.fail("invalid value for " + guc)
+		}
+	default:
+		switch val {
+		case "on", "true", "1", "yes":
+			t.Access = "read only"
+		case "off", "false", "0", "no", "default":
+			t.Access = "read write"
+		default:
+			p.fail("invalid value for " + guc)
+		}
+	}
+	return t
 }
 
 func (p *parser) skipToEnd() {
